@@ -602,7 +602,14 @@ class Driver:
                     self.inc("fault.fired.evt_stray")
                 if act == "pick" and m.seen_shift and phys:
                     self._pick_probes(xd, yd)
-                tksim.deliver(canvas, ev)
+                try:
+                    tksim.deliver(canvas, ev)
+                finally:
+                    # a click is a press followed by a release at the same place (an implementation may listen to either)
+                    rel = tksim.make_mouse(canvas, "button_release_event", px, py, button=e["button"], mods=e.get("mods", ()))
+                    if inside and e.get("snap"):
+                        rel.xdata = ev.xdata
+                    tksim.deliver(canvas, rel)
             elif kind in ("motion", "release", "scroll"):
                 px, py = self._pixel(e)
                 name = {"motion": "motion_notify_event", "release": "button_release_event", "scroll": "scroll_event"}[kind]
